@@ -58,6 +58,7 @@ pub fn external_about(id: &str) -> Vec<(&'static str, &'static str, &'static str
             ("py_scalar_history", "Hypothesis: sequences of 2-8 calls in one interpreter whose rule or data is a bare scalar from a pool of ==-equal but differently spelled values (True / 1 / 1.0, False / 0 / 0.0 / -0.0, \"1\", \"\", None ...), default or explicit serializer: every call must return exactly (type- and sign-strict) what the library gives for its own texts - the wrapper keeps nothing between calls.", "at least two calls in the sequence."),
             ("py_twin_history", "Hypothesis: a rule (14 fixed shapes and generated rules over 0 / 1 / True / False / 1.0 / 0.0 leaves) followed in the same interpreter by its numeric-tower twins - every bool / 0 / 1 / 0.0 / 1.0 leaf of rule and data replaced by an ==-equal value of another type: each call must return exactly what the library gives for its own texts.", "at least two calls."),
             ("py_concat_history", "Hypothesis: calls whose rule text followed by data text spell the same characters split at different points (apply(1, 23) then apply(12, 3); apply_serialized('2.5','6') then ('2','.56')): each must give what the library gives for its own two texts, malformed splits must raise ValueError.", "at least two calls."),
+            ("py_environment", "Hypothesis over the environment value: 22 probes (one per operator family on operands where other languages' or implementations' semantics differ) called with the ordinary environment and with every ALL-CAPS identifier found in the wrapper's source and in the extension's bytes set (os.environ, hence visible to the extension) to one of 1 / true / 0 / strict / js / php / compat / debug / off / empty, Turkish locale, a far time zone: both calls must return exactly what the library gives.", "every case."),
             ("py_mutation_history", "Hypothesis: the same dict / list object passed as data or as rule again and again with in-place edits in between (items appended, keys added / removed / changed): each call must reflect the current content.", "at least one edit."),
             ("py_apply_serialized", "Hypothesis: JSON texts (json.dumps / compact / indented dumps of generated objects, truncations, 25 malformed texts, number spellings such as 1e0 / 12345678901234567890123) as rule and data of apply_serialized x data {omitted, positional, keyword} x deserializer {omitted, json.loads, parse_float=Decimal, identity}; same oracle; texts that cannot be encoded as UTF-8 must raise UnicodeEncodeError (a ValueError).", "every case."),
         ],
